@@ -462,6 +462,9 @@ var qvars = []struct {
 	{"l1", gen.QL(gen.I(1)), true},
 	{"l3", gen.QL(gen.I(1), gen.S("b"), gen.QL(gen.I(3))), true},
 	{"nested", gen.QL(gen.QL(gen.I(1), gen.I(2)), gen.L(gen.S("u"), gen.S("v"))), true},
+	// lists BUILT at run time (not literals): shared, unsealed values
+	{"r3", gen.Call("list", gen.I(1), gen.I(2), gen.I(3)), true},
+	{"r2", gen.Call("list", gen.QS("p"), gen.Call("list", gen.I(4))), true},
 }
 
 func (g *qg) unquoted() gen.Val {
@@ -494,6 +497,10 @@ func (g *qg) spliced() gen.Val {
 		return gen.Call("probe", gen.I(int64(g.probe)), gen.S(v.name))
 	case 2:
 		return gen.Call("reverse", gen.QS("list"), gen.S(v.name))
+	case 3, 4:
+		// a call that answers the very same list object
+		g.stats["splice-of-identity-call"]++
+		return gen.Call("identity", gen.S(v.name))
 	default:
 		if v.name == "l0" {
 			g.stats["splice-empty"]++
@@ -578,6 +585,7 @@ func isSplice(v gen.Val) bool {
 }
 
 type QuasiCase struct {
+	Tmpl2 *gen.Val       `json:"tmpl2,omitempty"` // a second template instantiated after the first, over the same values
 	Tmpl  gen.Val        `json:"tmpl"`
 	Depth int            `json:"depth"`
 	Stats map[string]int `json:"stats"`
@@ -587,7 +595,13 @@ func genQuasi() *rapid.Generator[QuasiCase] {
 	return rapid.Custom(func(t *rapid.T) QuasiCase {
 		g := &qg{t: t, stats: map[string]int{}}
 		d := rapid.IntRange(0, 5).Draw(t, "depth")
-		return QuasiCase{Tmpl: g.item(d), Depth: d, Stats: g.stats}
+		qc := QuasiCase{Tmpl: g.item(d), Depth: d, Stats: g.stats}
+		if rapid.IntRange(0, 9).Draw(t, "second") < 4 {
+			t2 := g.item(rapid.IntRange(0, 3).Draw(t, "depth2"))
+			qc.Tmpl2 = &t2
+			g.stats["two-templates"]++
+		}
+		return qc
 	})
 }
 
@@ -596,7 +610,12 @@ func checkQuasi(q QuasiCase, c *vcommon.Ctx) *vcommon.Failure {
 	for _, v := range qvars {
 		binds = append(binds, gen.L(gen.S(v.name), v.init))
 	}
-	form := gen.L(gen.S("let"), gen.L(binds...), gen.L(gen.S("quasiquote"), q.Tmpl))
+	var body gen.Val = gen.L(gen.S("quasiquote"), q.Tmpl)
+	if q.Tmpl2 != nil {
+		// instantiating one template must not change what the next one sees
+		body = gen.Call("list", body, gen.L(gen.S("quasiquote"), *q.Tmpl2), gen.L(gen.S("quasiquote"), q.Tmpl))
+	}
+	form := gen.L(gen.S("let"), gen.L(binds...), body)
 	prog := []gen.Val{form}
 	src := gen.RenderProgram(prog)
 	for k, n := range q.Stats {
@@ -704,10 +723,92 @@ func checkGensym(g GensymCase, c *vcommon.Ctx) *vcommon.Failure {
 	return nil
 }
 
+// ---------- at the expansion-depth limit a call and its macroexpand still agree ----------
+
+type ChainCase struct {
+	Limit int  `json:"limit"` // configured maximum number of successive expansions
+	Delta int  `json:"delta"` // chain length = limit + delta
+	Atom  bool `json:"atom"`  // the chain ends in an atom instead of a list form
+}
+
+func checkChain(cc ChainCase, c *vcommon.Ctx) *vcommon.Failure {
+	if cc.Limit < 2 {
+		return nil
+	}
+	n := cc.Limit + cc.Delta
+	if n < 0 {
+		n = 0
+	}
+	last := "(quasiquote (+ 40 2))"
+	if cc.Atom {
+		last = "42"
+	}
+	defs := "(defmacro ch (n) (if (<= n 0) " + last + " (quasiquote (ch (unquote (- n 1))))))"
+	cfg := rtCfg
+	cfg.MaxMacroDepth = cc.Limit
+	run := func(src string) vcommon.Outcome {
+		rt := vcommon.NewRuntime(cfg)
+		if o := rt.Load(defs); o.IsErr {
+			return o
+		}
+		return rt.Load(src)
+	}
+	call := fmt.Sprintf("(ch %d)", n)
+	direct := run(call)
+	viaExpand := run(fmt.Sprintf("(eval (macroexpand '%s))", call))
+	c.Class(fmt.Sprintf("delta/%+d", cc.Delta))
+	if direct.Panic || viaExpand.Panic {
+		return vcommon.Failf("internal-panic", "internal panic at the expansion limit: %s / %s", direct.Msg, viaExpand.Msg)
+	}
+	if !direct.IsErr {
+		c.NonTrivial(fmt.Sprintf("%d/%d/%v", cc.Limit, cc.Delta, cc.Atom))
+		c.Class("call-succeeds")
+		if viaExpand.IsErr {
+			return vcommon.Failf("limit/macroexpand-fails-where-call-succeeds", "with at most %d successive expansions %s evaluates to %s, but (macroexpand '%s) fails: %s (%s)", cc.Limit, call, direct.Canon, call, viaExpand.Cond, viaExpand.Msg)
+		}
+		if viaExpand.Canon != direct.Canon {
+			return vcommon.Failf("limit/macroexpand-differs", "%s evaluates to %s, evaluating its macroexpand gives %s", call, direct.Canon, viaExpand.Canon)
+		}
+		// macroexpand is macroexpand-1 iterated to its fixed point
+		rt := vcommon.NewRuntime(cfg)
+		rt.Load(defs)
+		full := rt.Load(fmt.Sprintf("(macroexpand '%s)", call))
+		cur := "'" + call
+		var step vcommon.Outcome
+		for i := 0; i <= n+2; i++ {
+			step = rt.Load("(macroexpand-1 " + cur + ")")
+			if step.IsErr {
+				break
+			}
+			next := step.Text
+			if next == cur || "'"+next == cur {
+				break
+			}
+			cur = next
+			if !strings.HasPrefix(cur, "'") {
+				cur = "'" + cur
+			}
+		}
+		if !step.IsErr && !full.IsErr && step.Canon != full.Canon {
+			return vcommon.Failf("limit/macroexpand-1-fixed-point", "iterating macroexpand-1 on %s ends at %s, macroexpand gives %s", call, step.Canon, full.Canon)
+		}
+	} else {
+		c.Class("call-refused")
+	}
+	return nil
+}
+
+func genChain() *rapid.Generator[ChainCase] {
+	return rapid.Custom(func(t *rapid.T) ChainCase {
+		return ChainCase{Limit: rapid.IntRange(2, 60).Draw(t, "limit"), Delta: rapid.IntRange(-4, 3).Draw(t, "delta"), Atom: rapid.IntRange(0, 3).Draw(t, "atom") == 0}
+	})
+}
+
 func TestCheck(t *testing.T) {
 	vcommon.Main(t, "C07",
 		vcommon.S("macros", 60000, 1500000, genMacroCase(), checkMacro),
 		vcommon.S("quasiquote", 120000, 3000000, genQuasi(), checkQuasi),
 		vcommon.S("gensym", 20000, 300000, genGensym(), checkGensym),
+		vcommon.S("expansion-limit", 4000, 60000, genChain(), checkChain),
 	)
 }
